@@ -188,8 +188,8 @@ class PipeProperty:
     fields = pipefam.OBS_KEYS          # observations compared with the model
     stages = None                      # generator alphabet (None = all)
     weights = None
-    exhaustive_depth = {'quick': 1, 'thorough': 2}
-    n_random = {'quick': 300, 'thorough': 6000}
+    exhaustive_depth = {'quick': 2, 'thorough': 2}
+    n_random = {'quick': 2500, 'thorough': 20000}
     max_len = {'quick': 6, 'thorough': 10}
     required_ops = ()                  # generator self-test: ops that must occur at least `floor` times
     floor = 5
